@@ -84,7 +84,8 @@ pub fn dispatch(op: &str, a: &[&str]) -> Option<Ans> {
             if p.as_slice() != k || p2.as_slice() != k {
                 ("mismatch precalc".into(), "n/a".into())
             } else {
-                (ok(&k), if sr == 0 { ok(&s) } else { "n/a".into() })
+                // libsodium's crypto_box_beforenm refuses (−1) a public key whose shared secret is all-zero; dryoc's is infallible (F17)
+                (ok(&k), if sr == 0 { ok(&s) } else { "err".into() })
             }
         }
         // ------------------------------------------------------------------ key exchange
